@@ -1,7 +1,673 @@
-//! C12 — harness not built yet.
+//! C12 — layered user dictionaries keep ids, parts of speech and references straight.
+//!
+//! A system dictionary and 0..15 user dictionaries are compiled by the real `DictBuilder` (each user dictionary either
+//! against the bare system dictionary or — the CLI `ubuild` / Python route — against the configured dictionary as it stands,
+//! plugin-registered POS and earlier user dictionaries included), loaded through `JapaneseDictionary::from_cfg_storage` with
+//! OOV plugins that ask for POS with userPOS allow/forbid.  For every word of every dictionary the reported POS strings,
+//! split / word-structure references and dictionary number are recorded and compared with the CSV and with Model/LexSet.v.
+use crate::c04::{build_system, matrix};
 use crate::common::*;
+use serde_json::{json, Value};
+use sudachi::analysis::stateless_tokenizer::StatelessTokenizer;
+use sudachi::analysis::Tokenize;
+use sudachi::config::ConfigBuilder;
+use sudachi::dic::build::DictBuilder;
+use sudachi::dic::dictionary::JapaneseDictionary;
+use sudachi::dic::storage::{Storage, SudachiDicData};
+use sudachi::dic::word_id::WordId;
+use sudachi::dic::DictionaryLoader;
+use sudachi::prelude::Mode;
 
-pub fn run(_args: &Args) {
-    eprintln!("no harness for C12 yet");
-    std::process::exit(2);
+const NPOOL: usize = 12;
+
+fn pos_fields(i: usize) -> Vec<String> {
+    vec![format!("品{}", i / 3), format!("類{}", i), "*".into(), "*".into(), "*".into(), if i % 2 == 0 { "*".into() } else { "終止形".into() }]
+}
+fn pos_csv(i: usize) -> String {
+    pos_fields(i).join(",")
+}
+fn intern(strings: &[String]) -> u64 {
+    for i in 0..NPOOL {
+        if pos_fields(i) == strings {
+            return i as u64;
+        }
+    }
+    9999
+}
+
+#[derive(Clone, Debug)]
+enum Unit {
+    Sys(usize),          // written `n`
+    Own(usize),          // written `Un`
+    Inline(bool, usize), // (target is own row?, row): written surface,pos..,reading of the target
+}
+
+#[derive(Clone, Debug)]
+struct Row {
+    surface: String,
+    reading: String,
+    pos: usize,
+    a: Vec<Unit>,
+    b: Vec<Unit>,
+    ws: Vec<Unit>,
+}
+
+#[derive(Clone, Debug)]
+struct Case {
+    sys: Vec<Row>,
+    plugins: Vec<(u8, usize, bool)>, // (0 simple / 1 regex, POS, allow)
+    users: Vec<(bool, Vec<Row>)>,    // (compiled against the configured dictionary?, rows)
+}
+
+fn unit_text(u: &Unit, own: &[Row], sys: &[Row]) -> String {
+    match u {
+        Unit::Sys(n) => format!("{}", n),
+        Unit::Own(n) => format!("U{}", n),
+        Unit::Inline(o, n) => {
+            let r = if *o { &own[*n] } else { &sys[*n] };
+            format!("{},{},{}", r.surface, pos_csv(r.pos), r.reading)
+        }
+    }
+}
+
+fn render(rows: &[Row], sys: &[Row]) -> String {
+    let mut s = String::new();
+    for (i, r) in rows.iter().enumerate() {
+        let lst = |us: &Vec<Unit>| -> String {
+            if us.is_empty() {
+                "*".to_string()
+            } else {
+                format!("\"{}\"", us.iter().map(|u| unit_text(u, rows, sys)).collect::<Vec<_>>().join("/"))
+            }
+        };
+        let mode = if r.a.is_empty() && r.b.is_empty() { "A" } else { "C" };
+        s.push_str(&format!(
+            "{},{},{},{},{},{},{},{},*,{},{},{},{},*\n",
+            r.surface,
+            i % 10,
+            (i + 3) % 10,
+            5000 + (i as i32 % 7) * 100,
+            r.surface,
+            pos_csv(r.pos),
+            r.reading,
+            r.surface,
+            mode,
+            lst(&r.a),
+            lst(&r.b),
+            lst(&r.ws)
+        ));
+    }
+    s
+}
+
+fn gen_units(rng: &mut Rng, me: usize, nown: usize, nsys: usize, user: bool, allow_inline: bool) -> Vec<Unit> {
+    let n = match rng.below(6) {
+        0..=2 => 0,
+        3..=4 => 2,
+        _ => 3,
+    };
+    let mut v = vec![];
+    for _ in 0..n {
+        let own_ok = user && nown > 1;
+        let k = rng.below(4);
+        let pick_own = |rng: &mut Rng| {
+            let mut j = rng.below(nown as u64) as usize;
+            if j == me {
+                j = (j + 1) % nown;
+            }
+            j
+        };
+        if k == 0 && own_ok {
+            v.push(Unit::Own(pick_own(rng)));
+        } else if k == 1 && allow_inline && own_ok {
+            v.push(Unit::Inline(true, pick_own(rng)));
+        } else if k == 2 && allow_inline && user {
+            v.push(Unit::Inline(false, rng.below(nsys as u64) as usize));
+        } else {
+            v.push(Unit::Sys(rng.below(nsys as u64) as usize));
+        }
+    }
+    v
+}
+
+fn gen_case(rng: &mut Rng, nusers: usize) -> Case {
+    // POS pool split: system uses a low range, plugins and user dictionaries overlap with it and with each other
+    let nsys_pos = 1 + rng.below(4) as usize;
+    let nsys = 2 + rng.below(5) as usize;
+    let mut sys = vec![];
+    for j in 0..nsys {
+        let mut r = Row { surface: format!("s{}x", j), reading: format!("ヨ{}", j), pos: rng.below(nsys_pos as u64) as usize, a: vec![], b: vec![], ws: vec![] };
+        if j > 1 && rng.chance(1, 3) {
+            r.a = vec![Unit::Sys(rng.below(j as u64) as usize), Unit::Sys(rng.below(j as u64) as usize)];
+            if rng.chance(1, 2) {
+                r.ws = r.a.clone();
+            }
+        }
+        sys.push(r);
+    }
+    let nplug = 1 + rng.below(3) as usize;
+    let mut plugins = vec![];
+    for p in 0..nplug {
+        let kind = if p == 0 { 0 } else { rng.below(2) as u8 };
+        let pos = rng.below((nsys_pos + 4).min(NPOOL) as u64) as usize;
+        // forbid with an unknown POS makes the configuration fail to load: keep that rare
+        let allow = !rng.chance(1, 12);
+        plugins.push((kind, pos, allow));
+    }
+    let mut users = vec![];
+    for d in 0..nusers {
+        let nrows = if nusers > 6 { 1 + rng.below(2) } else { 1 + rng.below(5) } as usize;
+        let configured = rng.chance(1, 2);
+        let mut rows: Vec<Row> = vec![];
+        for j in 0..nrows {
+            let pos = match rng.below(4) {
+                0 => rng.below(nsys_pos as u64) as usize,
+                _ => rng.below(NPOOL as u64) as usize,
+            };
+            rows.push(Row { surface: format!("u{}w{}", d + 1, j), reading: format!("ユ{}", j), pos, a: vec![], b: vec![], ws: vec![] });
+        }
+        // inline references against a configured dictionary that already holds user dictionaries used to panic in the
+        // builder's BinDictResolver (repaired in the repository, see KNOWN_FINDINGS.txt); they stay in the stream
+        let allow_inline = rng.chance(2, 3);
+        for j in 0..nrows {
+            rows[j].a = gen_units(rng, j, nrows, nsys, true, allow_inline);
+            if !rows[j].a.is_empty() && rng.chance(1, 2) {
+                rows[j].b = gen_units(rng, j, nrows, nsys, true, allow_inline);
+            }
+            if rng.chance(1, 3) {
+                rows[j].ws = gen_units(rng, j, nrows, nsys, true, false);
+            }
+        }
+        users.push((configured, rows));
+    }
+    Case { sys, plugins, users }
+}
+
+fn config_json(c: &Case) -> String {
+    let mut plugs = vec![];
+    for (kind, pos, allow) in &c.plugins {
+        let up = if *allow { "allow" } else { "forbid" };
+        if *kind == 0 {
+            plugs.push(json!({"class": "com.worksap.nlp.sudachi.SimpleOovPlugin", "oovPOS": pos_fields(*pos), "leftId": 0, "rightId": 0, "cost": 30000, "userPOS": up}));
+        } else {
+            plugs.push(json!({"class": "com.worksap.nlp.sudachi.RegexOovProvider", "regex": "[0-9]+", "oovPOS": pos_fields(*pos), "leftId": 0, "rightId": 0, "cost": 1000, "userPOS": up}));
+        }
+    }
+    json!({"path": format!("{}/sudachi/tests/resources", repo()), "characterDefinitionFile": "char.def", "oovProviderPlugin": plugs}).to_string()
+}
+
+fn load(cfg_json: &str, sys: &[u8], users: &[Vec<u8>]) -> Result<JapaneseDictionary, String> {
+    let cfg = ConfigBuilder::from_bytes(cfg_json.as_bytes()).map_err(|e| format!("config: {:?}", e))?.build();
+    let mut st = SudachiDicData::new(Storage::Owned(sys.to_vec()));
+    for u in users {
+        st.add_user(Storage::Owned(u.clone()));
+    }
+    match catch(|| JapaneseDictionary::from_cfg_storage(&cfg, st)) {
+        Ok(Ok(d)) => Ok(d),
+        Ok(Err(e)) => Err(format!("{:?}", e)),
+        Err(p) => Err(format!("PANIC {}", p)),
+    }
+}
+
+fn build_user<D: sudachi::analysis::stateless_tokenizer::DictionaryAccess>(d: D, csv: &str) -> Result<Vec<u8>, String> {
+    let r = catch(|| -> Result<Vec<u8>, String> {
+        let mut b = DictBuilder::new_user(d);
+        b.read_lexicon(csv.as_bytes()).map_err(|e| format!("read: {:?}", e))?;
+        b.resolve().map_err(|e| format!("resolve: {:?}", e))?;
+        let mut out = vec![];
+        b.compile(&mut out).map_err(|e| format!("compile: {:?}", e))?;
+        Ok(out)
+    });
+    match r {
+        Ok(x) => x,
+        Err(p) => Err(format!("PANIC {}", p)),
+    }
+}
+
+fn case_json(c: &Case) -> Value {
+    let u = |us: &Vec<Unit>| -> Value {
+        Value::Array(
+            us.iter()
+                .map(|x| match x {
+                    Unit::Sys(n) => json!(["s", n]),
+                    Unit::Own(n) => json!(["u", n]),
+                    Unit::Inline(o, n) => json!(["i", o, n]),
+                })
+                .collect(),
+        )
+    };
+    let rows = |rs: &Vec<Row>| -> Value { Value::Array(rs.iter().map(|r| json!({"surface": r.surface, "reading": r.reading, "pos": r.pos, "a": u(&r.a), "b": u(&r.b), "ws": u(&r.ws)})).collect()) };
+    json!({"kind": "c12", "sys": rows(&c.sys),
+           "plugins": c.plugins.iter().map(|(k, p, a)| json!([k, p, a])).collect::<Vec<_>>(),
+           "users": c.users.iter().map(|(cf, rs)| json!({"configured": cf, "rows": rows(rs)})).collect::<Vec<_>>(),
+           "pos_pool": (0..NPOOL).map(pos_csv).collect::<Vec<_>>()})
+}
+
+fn case_from_json(v: &Value) -> Case {
+    let u = |x: &Value| -> Vec<Unit> {
+        x.as_array()
+            .unwrap()
+            .iter()
+            .map(|e| match e[0].as_str().unwrap() {
+                "s" => Unit::Sys(e[1].as_u64().unwrap() as usize),
+                "u" => Unit::Own(e[1].as_u64().unwrap() as usize),
+                _ => Unit::Inline(e[1].as_bool().unwrap(), e[2].as_u64().unwrap() as usize),
+            })
+            .collect()
+    };
+    let rows = |x: &Value| -> Vec<Row> {
+        x.as_array()
+            .unwrap()
+            .iter()
+            .map(|r| Row { surface: r["surface"].as_str().unwrap().into(), reading: r["reading"].as_str().unwrap().into(), pos: r["pos"].as_u64().unwrap() as usize, a: u(&r["a"]), b: u(&r["b"]), ws: u(&r["ws"]) })
+            .collect()
+    };
+    Case {
+        sys: rows(&v["sys"]),
+        plugins: v["plugins"].as_array().unwrap().iter().map(|p| (p[0].as_u64().unwrap() as u8, p[1].as_u64().unwrap() as usize, p[2].as_bool().unwrap())).collect(),
+        users: v["users"].as_array().unwrap().iter().map(|u| (u["configured"].as_bool().unwrap(), rows(&u["rows"]))).collect(),
+    }
+}
+
+/// sequence of POS the builder asks for while reading the rows (inline units of split A, of split B, then the row's own POS)
+/// and, per row, the position of its own request in that sequence
+fn pos_requests(rows: &[Row], sys: &[Row]) -> (Vec<usize>, Vec<usize>) {
+    let mut reqs = vec![];
+    let mut idx = vec![];
+    for r in rows {
+        for u in r.a.iter().chain(r.b.iter()) {
+            if let Unit::Inline(o, n) = u {
+                reqs.push(if *o { rows[*n].pos } else { sys[*n].pos });
+            }
+        }
+        idx.push(reqs.len());
+        reqs.push(r.pos);
+    }
+    (reqs, idx)
+}
+
+/// build-time stamp of a reference: (0, n) for the system dictionary, (1, n) for the dictionary being built
+fn build_stamp(u: &Unit) -> u32 {
+    match u {
+        Unit::Sys(n) | Unit::Inline(false, n) => *n as u32,
+        Unit::Own(n) | Unit::Inline(true, n) => (1u32 << 28) | *n as u32,
+    }
+}
+
+#[derive(Debug, PartialEq, Clone)]
+struct SysView(Vec<(String, Vec<String>, Vec<u32>, Vec<u32>, Vec<u32>, String, (i16, i16, i16))>);
+
+fn sys_view(d: &JapaneseDictionary, n: usize) -> Result<SysView, String> {
+    catch(|| {
+        let mut v = vec![];
+        for i in 0..n {
+            let id = WordId::new(0, i as u32);
+            let wi = d.lexicon().get_word_info(id).unwrap();
+            v.push((
+                wi.surface().to_string(),
+                d.grammar().pos_components(wi.pos_id()).to_vec(),
+                wi.a_unit_split().iter().map(|w| w.as_raw()).collect(),
+                wi.b_unit_split().iter().map(|w| w.as_raw()).collect(),
+                wi.word_structure().iter().map(|w| w.as_raw()).collect(),
+                wi.reading_form().to_string(),
+                d.lexicon().get_word_param(id),
+            ));
+        }
+        SysView(v)
+    })
+}
+
+fn run_case(sink: &mut Sink, c: &Case, verbose: bool) {
+    let d = case_json(c);
+    let cfg = config_json(c);
+    let sys_csv = render(&c.sys, &c.sys);
+    let sysb = match build_system(&sys_csv) {
+        Ok(b) => b,
+        Err(e) => {
+            let id = sink.case_rust_only(d, false);
+            sink.fail(id, &format!("system lexicon rejected: {}", e), "");
+            return;
+        }
+    };
+    let _ = matrix;
+    // does the configuration load at all (plugins may forbid an unknown POS)?
+    let base = load(&cfg, &sysb, &[]);
+    let mut sys_pos_known: Vec<usize> = vec![];
+    for r in &c.sys {
+        if !sys_pos_known.contains(&r.pos) {
+            sys_pos_known.push(r.pos);
+        }
+    }
+    let mut known = sys_pos_known.clone();
+    let mut cfg_ok = true;
+    for (_, p, allow) in &c.plugins {
+        if !known.contains(p) {
+            if *allow {
+                known.push(*p);
+            } else {
+                cfg_ok = false;
+                break;
+            }
+        }
+    }
+    let plugin_new = known.len() - sys_pos_known.len();
+    let bad: std::cell::RefCell<Option<(String, String)>> = std::cell::RefCell::new(None);
+    let fail = |what: String, class: &str| {
+        let mut b = bad.borrow_mut();
+        if b.is_none() {
+            *b = Some((what, class.to_string()));
+        }
+    };
+    let (sys_reqs, sys_idx) = pos_requests(&c.sys, &c.sys);
+    let users_term = |c: &Case| -> String {
+        clist(c.users.iter().map(|(cf, rows)| {
+            let (reqs, idx) = pos_requests(rows, &c.sys);
+            format!("({}, {}, {})", cbool(*cf), clist(reqs.iter().map(|p| cnu(*p))), clist(idx.iter().map(|i| format!("{}%nat", i))))
+        }))
+    };
+    let head = format!(
+        "{} {} {} {}",
+        clist(sys_reqs.iter().map(|p| cnu(*p))),
+        clist(sys_idx.iter().map(|i| format!("{}%nat", i))),
+        clist(c.plugins.iter().map(|(_, p, a)| cpair(&cnu(*p), cbool(*a)))),
+        users_term(c)
+    );
+    sink.tag(&format!("users={}", c.users.len()));
+    sink.tag(&format!("plugin_registered_pos={}", plugin_new));
+    if base.is_err() {
+        let e = base.err().unwrap();
+        if verbose {
+            println!("configuration does not load: {}", e);
+        }
+        if cfg_ok {
+            fail(format!("configuration with system dictionary only does not load: {}", e), "");
+        } else if e.starts_with("PANIC") {
+            fail(format!("loading a configuration whose plugin forbids an unknown POS panicked: {}", e), "");
+        }
+        sink.tag("config_rejected_forbidden_pos");
+        let id = sink.case(format!("check_case_c12 {} false [] []", head), d, false);
+        if let Some((w, cl)) = bad.into_inner() {
+            sink.fail(id, &w, &cl);
+        }
+        return;
+    }
+    if !cfg_ok {
+        let id = sink.case(format!("check_case_c12 {} true [] []", head), d, false);
+        sink.fail(id, "a plugin asked for an unknown POS with userPOS=forbid and the configuration loaded", "");
+        return;
+    }
+    let base = base.unwrap();
+    let base_view = sys_view(&base, c.sys.len());
+    // compile and stack the user dictionaries
+    let mut ubins: Vec<Vec<u8>> = vec![];
+    let mut loaded_ok = true;
+    let mut cur: Option<JapaneseDictionary> = Some(base);
+    for (k, (configured, rows)) in c.users.iter().enumerate() {
+        let csv = render(rows, &c.sys);
+        let has_inline = rows.iter().any(|r| r.a.iter().chain(r.b.iter()).any(|u| matches!(u, Unit::Inline(..))));
+        let r = if *configured {
+            sink.tag("route_configured");
+            build_user(cur.as_ref().unwrap(), &csv)
+        } else {
+            sink.tag("route_bare");
+            let l = DictionaryLoader::read_system_dictionary(&sysb).unwrap().to_loaded().unwrap();
+            build_user(&l, &csv)
+        };
+        let out_of_range = rows.iter().any(|r| r.a.iter().chain(r.b.iter()).chain(r.ws.iter()).any(|u| matches!(u, Unit::Sys(n) if *n >= c.sys.len())));
+        if out_of_range {
+            // malformed stream: a reference to a system word that does not exist must be rejected by the builder
+            sink.tag("malformed_reference_beyond_system_dictionary");
+            if verbose {
+                println!("builder outcome for the out-of-range reference: {:?}", r.as_ref().map(|b| format!("compiled, {} bytes", b.len())));
+            }
+            match r {
+                Ok(_) => fail(format!("user dictionary {} references system word beyond the system dictionary ({} words) and was compiled", k + 1, c.sys.len()), ""),
+                Err(e) if e.starts_with("PANIC") => fail(format!("builder panicked on an out-of-range system reference: {}", e), ""),
+                Err(_) => {}
+            }
+            let id = sink.case_rust_only(d, false);
+            if let Some((w, cl)) = bad.into_inner() {
+                sink.fail(id, &w, &cl);
+            }
+            return;
+        }
+        match r {
+            Ok(b) => ubins.push(b),
+            Err(e) => {
+                if verbose {
+                    println!("user dictionary {} ({}) does not compile: {}", k + 1, if *configured { "configured route" } else { "bare route" }, e);
+                }
+                let _ = has_inline;
+                let class = "";
+                fail(format!("user dictionary {} ({}) does not compile: {}", k + 1, if *configured { "built against the configured dictionary" } else { "built against the bare system dictionary" }, e), class);
+                loaded_ok = false;
+                break;
+            }
+        }
+        match load(&cfg, &sysb, &ubins) {
+            Ok(dn) => cur = Some(dn),
+            Err(e) => {
+                loaded_ok = false;
+                if verbose {
+                    println!("stack of {} user dictionaries does not load: {}", k + 1, e);
+                }
+                if k + 1 <= 14 {
+                    fail(format!("stack of {} user dictionaries rejected: {}", k + 1, e), "");
+                } else if !e.contains("TooManyDictionaries") {
+                    fail(format!("15th user dictionary rejected with an unexpected error: {}", e), "");
+                } else {
+                    sink.tag("fifteenth_user_dictionary_rejected");
+                }
+                break;
+            }
+        }
+        if k + 1 > 14 {
+            fail("a 15th user dictionary was accepted".to_string(), "");
+        }
+    }
+    if bad.borrow().is_some() && !loaded_ok && c.users.len() <= 14 {
+        let id = sink.case_rust_only(d, false);
+        let (w, cl) = bad.into_inner().unwrap();
+        sink.fail(id, &w, &cl);
+        return;
+    }
+    let dict = cur.unwrap();
+    let nlayers = if loaded_ok { c.users.len() } else { ubins.len().min(14) };
+    // observations: every word of every layer
+    let mut obs = vec![];
+    let mut nontrivial = false;
+    for dno in 0..=nlayers {
+        let rows: &Vec<Row> = if dno == 0 { &c.sys } else { &c.users[dno - 1].1 };
+        for (i, r) in rows.iter().enumerate() {
+            let id = WordId::new(dno as u8, i as u32);
+            let got = catch(|| {
+                let wi = dict.lexicon().get_word_info(id).map_err(|e| format!("{:?}", e))?;
+                let mut sp: Vec<u32> = wi.a_unit_split().iter().map(|w| w.as_raw()).collect();
+                sp.extend(wi.b_unit_split().iter().map(|w| w.as_raw()));
+                sp.extend(wi.word_structure().iter().map(|w| w.as_raw()));
+                Ok::<_, String>((wi.pos_id(), sp, wi.surface().to_string()))
+            });
+            let (pos_id, splits, surf) = match got {
+                Ok(Ok(x)) => x,
+                Ok(Err(e)) => {
+                    fail(format!("word ({}, {}) cannot be read: {}", dno, i, e), "");
+                    continue;
+                }
+                Err(p) => {
+                    fail(format!("reading word ({}, {}) panicked: {}", dno, i, p), "");
+                    continue;
+                }
+            };
+            let strings = catch(|| dict.grammar().pos_components(pos_id).to_vec());
+            let impl_pos = match &strings {
+                Ok(s) => Some(intern(s)),
+                Err(_) => None,
+            };
+            let want: Vec<u32> = r.a.iter().chain(r.b.iter()).chain(r.ws.iter()).map(build_stamp).collect();
+            let want_loaded: Vec<u32> = want.iter().map(|w| if w >> 28 != 0 { ((dno as u32) << 28) | (w & 0x0fff_ffff) } else { *w }).collect();
+            if surf != r.surface {
+                fail(format!("word ({}, {}) has surface {:?}, CSV row says {:?}", dno, i, surf, r.surface), "");
+            }
+            match &strings {
+                Ok(s) if *s == pos_fields(r.pos) => {}
+                Ok(s) => fail(format!("word ({}, {}) {:?} reports POS {:?} (id {}), its CSV row declares {:?}", dno, i, r.surface, s, pos_id, pos_fields(r.pos)), ""),
+                Err(p) => fail(format!("part_of_speech of word ({}, {}) {:?} panicked (POS id {}): {}", dno, i, r.surface, pos_id, p), ""),
+            }
+            if splits != want_loaded {
+                fail(format!("word ({}, {}) {:?} reports references {:?}, CSV row means {:?}", dno, i, r.surface, splits, want_loaded), "");
+            }
+            if dno > 0 && (!want.is_empty() || !sys_pos_known.contains(&r.pos)) {
+                nontrivial = true;
+            }
+            if verbose {
+                println!("impl word ({},{}) {:?}: pos id {} = {:?}; references {:?}   | CSV: pos {:?}; references {:?}", dno, i, r.surface, pos_id, strings, splits, pos_fields(r.pos), want_loaded);
+            }
+            obs.push(format!(
+                "({}, {}, {}, {}, {}, {})",
+                cnu(dno),
+                cnu(i),
+                cnu(r.pos),
+                copt(impl_pos.map(|p| cn(p))),
+                clist(want.iter().map(|w| cn(*w))),
+                clist(splits.iter().map(|w| cn(*w)))
+            ));
+        }
+    }
+    // system words must read the same with and without user dictionaries
+    match (&base_view, &sys_view(&dict, c.sys.len())) {
+        (Ok(a), Ok(b)) => {
+            if a != b {
+                fail("data of system words differs once user dictionaries are loaded".to_string(), "");
+            }
+        }
+        (_, Err(p)) | (Err(p), _) => fail(format!("reading system words panicked: {}", p), ""),
+    }
+    // morpheme level: dictionary_id and POS through the tokenizer, including OOV
+    let mut mobs = vec![];
+    let mut text = String::new();
+    for dno in 0..=nlayers {
+        let rows: &Vec<Row> = if dno == 0 { &c.sys } else { &c.users[dno - 1].1 };
+        text.push_str(&rows[rows.len() / 2].surface);
+        text.push_str(if dno % 2 == 0 { "@@" } else { "42" });
+    }
+    let tk = StatelessTokenizer::new(&dict);
+    let toks = catch(|| {
+        let ms = tk.tokenize(&text, Mode::C, false).map_err(|e| format!("{:?}", e))?;
+        let mut v = vec![];
+        for m in ms.iter() {
+            v.push((m.word_id().as_raw(), m.dictionary_id(), m.is_oov(), m.part_of_speech().to_vec(), m.surface().to_string()));
+        }
+        Ok::<_, String>(v)
+    });
+    match toks {
+        Ok(Ok(v)) => {
+            let plugin_pos: Vec<Vec<String>> = c.plugins.iter().map(|(_, p, _)| pos_fields(*p)).collect();
+            for (raw, did, oov, pos, surf) in v {
+                if oov {
+                    sink.tag("oov_morpheme");
+                    if did != -1 {
+                        fail(format!("OOV morpheme {:?} reports dictionary {}", surf, did), "");
+                    }
+                    if !plugin_pos.contains(&pos) {
+                        fail(format!("OOV morpheme {:?} has POS {:?}, no OOV plugin declares it", surf, pos), "");
+                    }
+                } else {
+                    let dno = (raw >> 28) as usize;
+                    let i = (raw & 0x0fff_ffff) as usize;
+                    let rows: Option<&Vec<Row>> = if dno == 0 { Some(&c.sys) } else { c.users.get(dno - 1).map(|u| &u.1) };
+                    match rows.and_then(|r| r.get(i)) {
+                        Some(r) => {
+                            if did != dno as i32 {
+                                fail(format!("morpheme {:?} (dic {}, word {}) reports dictionary {}", surf, dno, i, did), "");
+                            }
+                            if r.surface != surf || pos != pos_fields(r.pos) {
+                                fail(format!("morpheme {:?} (dic {}, word {}) reports POS {:?}; row ({:?}) declares {:?}", surf, dno, i, pos, r.surface, pos_fields(r.pos)), "");
+                            }
+                        }
+                        None => fail(format!("morpheme {:?} carries word id ({}, {}) which no dictionary holds", surf, dno, i), ""),
+                    }
+                }
+                mobs.push(cpair(&cn(raw), &cz(did as i64)));
+            }
+        }
+        Ok(Err(e)) => fail(format!("tokenizing {:?} failed: {}", text, e), ""),
+        Err(p) => fail(format!("tokenizing {:?} panicked: {}", text, p), ""),
+    }
+    let term = format!("check_case_c12 {} {} {} {}", head, cbool(loaded_ok), clist(obs), clist(mobs));
+    let id = sink.case(term, d, nontrivial);
+    if let Some((w, cl)) = bad.into_inner() {
+        if verbose {
+            println!("FAIL: {}", w);
+        }
+        sink.fail(id, &w, &cl);
+    }
+}
+
+pub fn run(args: &Args) {
+    let mut sink = Sink::new("C12", &args.out, &["Model.LexSet"], args.seed, &args.tier);
+    sink.shard_size = 60;
+    sink.rule("system dictionary (2-6 words, 1-4 POS) + 1-3 OOV plugins (Simple/Regex) asking for POS from a pool of 12 with userPOS allow (forbid rarely) + 0..15 user dictionaries, each compiled either against the bare system dictionary or against the configured dictionary as it stands (CLI ubuild / Python route), rows with POS from the pool (system / plugin-registered / other user dictionaries' / new) and split-A/B + word-structure references written as n, Un and inline triples; every word of every layer is read back (POS strings, references, surface), system words are compared with the user-free load, a text mixing words of all layers with OOV material is tokenized (dictionary_id, POS, OOV = -1); non-trivial = some user word has a user-defined POS or references; distinct by generated Coq term");
+    if let Some(p) = &args.replay {
+        let v: Value = serde_json::from_str(&std::fs::read_to_string(p).unwrap()).unwrap();
+        let c = case_from_json(&v["case"]);
+        // replays show where the implementation panics
+        std::panic::set_hook(Box::new(|i| println!("[panic] {}", i)));
+        println!("config: {}", config_json(&c));
+        println!("system CSV:\n{}", render(&c.sys, &c.sys));
+        for (k, (cf, rows)) in c.users.iter().enumerate() {
+            println!("user dictionary {} ({}):\n{}", k + 1, if *cf { "built against the configured dictionary" } else { "built against the bare system dictionary" }, render(rows, &c.sys));
+        }
+        run_case(&mut sink, &c, true);
+        sink.finish();
+        return;
+    }
+    let mut rng = Rng::new(args.seed);
+    // directed: the reproduced defect shape — one plugin registers a POS, one user dictionary with its own POS compiled
+    // against the configured dictionary
+    {
+        let sys = vec![
+            Row { surface: "s0x".into(), reading: "ヨ0".into(), pos: 0, a: vec![], b: vec![], ws: vec![] },
+            Row { surface: "s1x".into(), reading: "ヨ1".into(), pos: 1, a: vec![], b: vec![], ws: vec![] },
+        ];
+        for configured in [false, true] {
+            let rows = vec![
+                Row { surface: "u1w0".into(), reading: "ユ0".into(), pos: 7, a: vec![], b: vec![], ws: vec![] },
+                Row { surface: "u1w1".into(), reading: "ユ1".into(), pos: 5, a: vec![Unit::Own(0), Unit::Sys(1)], b: vec![], ws: vec![Unit::Own(0), Unit::Sys(1)] },
+                Row { surface: "u1w2".into(), reading: "ユ2".into(), pos: 1, a: vec![Unit::Inline(true, 0), Unit::Inline(false, 0)], b: vec![], ws: vec![] },
+            ];
+            let c = Case { sys: sys.clone(), plugins: vec![(0, 5, true)], users: vec![(configured, rows)] };
+            run_case(&mut sink, &c, false);
+            sink.tag("directed_plugin_pos_then_user_pos");
+        }
+    }
+    // directed (malformed): a plain reference `n` of a user dictionary compiled against a configured dictionary that already
+    // holds a user dictionary must be checked against the system dictionary's size, not the size of all layers
+    {
+        let mk = |s: &str, pos: usize, ws: Vec<Unit>| Row { surface: s.into(), reading: format!("ヨ{}", s), pos, a: vec![], b: vec![], ws };
+        let sys = vec![mk("s0x", 0, vec![]), mk("s1x", 1, vec![])];
+        let u1 = vec![mk("u1w0", 2, vec![]), mk("u1w1", 3, vec![]), mk("u1w2", 3, vec![])];
+        let u2 = vec![mk("u2w0", 4, vec![Unit::Sys(1), Unit::Sys(3)])];
+        let c = Case { sys, plugins: vec![(0, 0, true)], users: vec![(false, u1), (true, u2)] };
+        run_case(&mut sink, &c, false);
+    }
+    // directed: 14 user dictionaries accepted, the 15th rejected
+    for n in [14usize, 15] {
+        let c = gen_case(&mut rng, n);
+        run_case(&mut sink, &c, false);
+        sink.tag("directed_capacity");
+    }
+    let n = args.n(1500, 20000);
+    for _ in 0..n {
+        let nusers = match rng.below(20) {
+            0 => 0,
+            1..=8 => 1,
+            9..=13 => 2,
+            14..=16 => 3,
+            17..=18 => 4 + rng.below(4) as usize,
+            _ => 8 + rng.below(8) as usize,
+        };
+        let c = gen_case(&mut rng, nusers);
+        run_case(&mut sink, &c, false);
+    }
+    sink.finish();
 }
